@@ -78,7 +78,12 @@ def run_program(case):
                 port.pos_handler.positions[a].update_current_price(price)
                 flags.add('mark_without_timestamp')
             else:
-                port.update_market_value_of_asset(a, price, t)
+                px = price
+                if price == int(price) and i % 2:
+                    import numpy as np
+                    px = int(price) if i % 4 == 1 else np.int64(price)         # a whole-number quote given as a (numpy) integer
+                    flags.add('mark_price_not_a_python_float')
+                port.update_market_value_of_asset(a, px, t)
             if net.get(a, 0) != 0:
                 last[a] = F(price)
                 flags.add('mark_on_held')
